@@ -272,12 +272,11 @@ class LetExpression(TypedExpression):
             [layer for layer in list(value_state.stack) if layer.get("scope")]
         )
         if not self.local_variables:
+            # A binding-less `let in` is elided.  The body keeps its own scope and
+            # scope state: copying its layers into a fresh stack as well made every
+            # inner `let` of the body appear twice.
             return self.value.model_copy(
-                update={
-                    "before": body_before,
-                    "after": body_after,
-                    "scope_state": ScopeState(stack=scope_stack),
-                }
+                update={"before": body_before, "after": body_after}
             )
         return self.value.model_copy(
             update={
